@@ -659,7 +659,9 @@ func runPanicRules(c *Ctx, r *Report, reach map[*ssa.Function]bool, extra []pani
 	r.doc("PANIC-ASSERT", "every non-comma-ok type assertion needs a dominating type fact on the same value (comma-ok, helper summary), a validator guarantee (VAL-AGREE) or an entry-rooted type-flow fact")
 	r.doc("PANIC-EXPL", "no reachable call to panic/log.Fatal/os.Exit, no integer division by a non-constant, no nil-map update")
 	funcs := sortedFuncs(reach)
-	nIdx, nSlice, nAssert := 0, 0, 0
+	nIdx, nSlice, nAssert, nCmp, nInv := 0, 0, 0, 0, 0
+	r.doc("PANIC-CMP", "every == / != between two interface values has an operand that is nil or whose dynamic type is known to be comparable (a constant, a conversion from a basic/pointer type, a dominating type fact): comparing two interface values that hold the same uncomparable dynamic type panics")
+	r.doc("PANIC-NILCALL", "every method call through an interface value (invoke) is made on a value known to be non-nil: a dominating != nil test, a successful type test, or a value made non-nil by construction; results of library calls that document a nil result (reflect.TypeOf(nil)) are not")
 	for _, fn := range funcs {
 		if !inLib(fn) {
 			continue
@@ -702,10 +704,30 @@ func runPanicRules(c *Ctx, r *Report, reach map[*ssa.Function]bool, extra []pani
 							site = &panicSite{fn, in, "expl", "div:" + c.key(x, nil)}
 						}
 					}
+					if (x.Op == token.EQL || x.Op == token.NEQ) && isInterfaceType(x.X.Type()) && isInterfaceType(x.Y.Type()) {
+						nCmp++
+						key := fnName(fn) + "|" + c.key(x.X, nil) + x.Op.String() + c.key(x.Y, nil)
+						if by, ok := c.ifaceCmpDischarge(in, x.X, x.Y); ok {
+							r.ok("PANIC-CMP", key, c.instrPos(in), by)
+						} else {
+							r.bad("PANIC-CMP", key, c.instrPos(in), fmt.Sprintf("%s compares two interface values whose dynamic types are not known to be comparable: when both hold the same uncomparable type (a slice, a map, a struct containing one) the comparison panics at run time (facts at this point: %s)", fnName(fn), atomsText(c.atomsAt(in))))
+						}
+						continue
+					}
 				case ssa.CallInstruction:
 					name := calleeFullName(x)
 					if name == "os.Exit" || strings.HasPrefix(name, "log.Fatal") || strings.HasPrefix(name, "log.Panic") || name == "runtime.Goexit" {
 						site = &panicSite{fn, in, "expl", name}
+					}
+					if x.Common().IsInvoke() {
+						nInv++
+						recv := x.Common().Value
+						key := fnName(fn) + "|" + c.key(recv, nil) + "." + x.Common().Method.Name()
+						if by, ok := c.nonNilDischarge(in, recv); ok {
+							r.ok("PANIC-NILCALL", key, c.instrPos(in), by)
+						} else {
+							r.bad("PANIC-NILCALL", key, c.instrPos(in), fmt.Sprintf("%s calls method %s on the interface value %s, which is not known to be non-nil here: a method call on a nil interface is a nil-pointer panic (facts at this point: %s)", fnName(fn), x.Common().Method.Name(), c.key(recv, nil), atomsText(c.atomsAt(in))))
+						}
 					}
 				}
 				if site == nil {
@@ -752,7 +774,7 @@ func runPanicRules(c *Ctx, r *Report, reach map[*ssa.Function]bool, extra []pani
 			}
 		}
 	}
-	r.extra["panic_sites"] = map[string]int{"index": nIdx, "slice": nSlice, "assert": nAssert}
+	r.extra["panic_sites"] = map[string]int{"index": nIdx, "slice": nSlice, "assert": nAssert, "interface-compare": nCmp, "invoke": nInv}
 }
 
 // tryDischarge applies the local dischargers and then the named ones to a site under the given facts.
@@ -1067,4 +1089,147 @@ func rulePANIC_C12(c *Ctx, r *Report) {
 	reach := c.reachFrom(roots)
 	runPanicRules(c, r, reach, c.panicDischargers(r, reach))
 	r.floor("PANIC-IDX", "reachable library functions", len(r.Units["functions"]), 15)
+}
+
+func isInterfaceType(t types.Type) bool {
+	_, ok := t.Underlying().(*types.Interface)
+	return ok
+}
+
+func atomsText(atoms []Atom) string {
+	var facts []string
+	for _, a := range atoms {
+		facts = append(facts, a.String())
+	}
+	sort.Strings(facts)
+	if len(facts) > 8 {
+		facts = facts[:8]
+	}
+	return strings.Join(facts, " ∧ ")
+}
+
+// strictlyComparable: values of t can be compared without a run-time panic (no interface-typed parts).
+func strictlyComparable(t types.Type) bool {
+	switch u := t.Underlying().(type) {
+	case *types.Basic, *types.Pointer, *types.Chan:
+		return true
+	case *types.Struct:
+		for i := 0; i < u.NumFields(); i++ {
+			if !strictlyComparable(u.Field(i).Type()) {
+				return false
+			}
+		}
+		return true
+	case *types.Array:
+		return strictlyComparable(u.Elem())
+	}
+	return false
+}
+
+// comparableOperand: the interface value v is nil or holds a value of a strictly comparable type.
+func (c *Ctx) comparableOperand(at ssa.Instruction, v ssa.Value, depth int) (string, bool) {
+	if depth > 3 {
+		return "", false
+	}
+	rv, _ := c.resolveX(v, nil, false)
+	switch x := rv.(type) {
+	case *ssa.Const:
+		if x.Value == nil {
+			return "compared with nil", true
+		}
+	case *ssa.MakeInterface:
+		if strictlyComparable(x.X.Type()) {
+			return "one operand holds a " + typeStr(x.X.Type()), true
+		}
+		return "", false
+	case *ssa.Call:
+		switch calleeFullName(x) {
+		case "fmt.Errorf", "errors.New":
+			return "one operand is a freshly made error (a pointer)", true
+		}
+	case *ssa.UnOp:
+		// a package-level sentinel whose only stores are comparable values
+		if g, ok := x.X.(*ssa.Global); ok && x.Op == token.MUL {
+			n, okAll := 0, true
+			for _, f := range c.Funcs {
+				for _, b := range f.Blocks {
+					for _, in := range b.Instrs {
+						if st, ok := in.(*ssa.Store); ok && st.Addr == ssa.Value(g) {
+							n++
+							if _, ok := c.comparableOperand(st, st.Val, depth+1); !ok {
+								okAll = false
+							}
+						}
+					}
+				}
+			}
+			if n > 0 && okAll {
+				return "one operand is the package-level value " + g.Name() + ", which only ever holds comparable values", true
+			}
+		}
+	case *ssa.Phi:
+		for _, e := range x.Edges {
+			if e == ssa.Value(x) {
+				continue
+			}
+			if _, ok := c.comparableOperand(at, e, depth+1); !ok {
+				return "", false
+			}
+		}
+		return "every alternative of one operand is nil or comparable", true
+	}
+	k := c.key(v, nil)
+	for _, a := range c.atomsAt(at) {
+		if a.Kind == "type" && a.Pos && a.Subj == k {
+			return "dominating type fact " + a.String(), true
+		}
+		if a.Kind == "nil" && a.Pos && a.Subj == k {
+			return "dominating fact " + a.String(), true
+		}
+	}
+	return "", false
+}
+
+func (c *Ctx) ifaceCmpDischarge(at ssa.Instruction, x, y ssa.Value) (string, bool) {
+	if by, ok := c.comparableOperand(at, x, 0); ok {
+		return by, true
+	}
+	return c.comparableOperand(at, y, 0)
+}
+
+// nonNilDischarge: the interface value recv is non-nil at instruction at.
+func (c *Ctx) nonNilDischarge(at ssa.Instruction, recv ssa.Value) (string, bool) {
+	rv, _ := c.resolveX(recv, nil, false)
+	if neverNil(rv) {
+		return "non-nil by construction", true
+	}
+	if ci, ok := rv.(*ssa.ChangeInterface); ok {
+		return c.nonNilDischarge(at, ci.X)
+	}
+	if ta, ok := rv.(*ssa.TypeAssert); ok && !ta.CommaOk {
+		return "result of a type assertion that succeeded", true
+	}
+	if call, ok := rv.(*ssa.Call); ok && calleeFullName(call) == "reflect.TypeOf" && len(call.Call.Args) == 1 {
+		// reflect.TypeOf(x) is nil exactly when x is a nil interface
+		if by, ok := c.nonNilDischarge(at, call.Call.Args[0]); ok {
+			return "reflect.TypeOf of a non-nil value (" + by + ")", true
+		}
+		return "", false
+	}
+	k := c.key(recv, nil)
+	for _, a := range c.atomsAt(at) {
+		if a.Kind == "nil" && !a.Pos && a.Subj == k {
+			return "dominating fact " + a.String(), true
+		}
+		if a.Kind == "type" && a.Pos && a.Subj == k {
+			return "dominating type fact " + a.String(), true
+		}
+	}
+	// a method of an interface-typed receiver parameter of a formatter (fmt passes a non-nil State)
+	if p, ok := rv.(*ssa.Parameter); ok {
+		if n, ok := p.Type().(*types.Named); ok && n.Obj().Pkg() != nil && n.Obj().Pkg().Path() == "fmt" {
+			return "fmt hands its formatting methods a non-nil " + n.Obj().Name(), true
+		}
+	}
+	return "", false
 }
